@@ -224,7 +224,11 @@ func c18(args []string) {
 		}
 	}
 	// 2b. queues that have already seen very many additions (the exported index starts near a power of two)
-	for _, start := range []int{1<<16 - 3, 1<<15 - 2, 1<<31 - 3, 1<<32 - 3} {
+	for _, start64 := range []int64{1<<16 - 3, 1<<15 - 2, 1<<31 - 3, 1<<32 - 3} {
+		start := int(start64)
+		if int64(start) != start64 {
+			continue // (a 32-bit build)
+		}
 		if concOnly {
 			break
 		}
